@@ -70,22 +70,23 @@ def main() -> int:
     violations: list[dict] = []
     # 1. translators
     gen_problems: list[str] = []
-    for g in getattr(mod, "GENERATORS", []):
-        try:
-            g()
-        except Exception as e:  # a translator that cannot follow the source
-            gen_problems.append(f"{g.__module__}.{g.__name__}: {type(e).__name__}: {e}")
-            traceback.print_exc()
-    # 2+3. proofs and audit
     proof = None
-    if not a.skip_proofs:
-        proof = common.check_proofs(prop, mod.PROP_FILES, mod.LEAN_TARGETS,
-                                    leanchecker=ctx.thorough)
-        proof.problems = gen_problems + proof.problems
-        if gen_problems:
-            proof.ok = False
-        log(f"[{prop}] proof obligations: {proof.discharged}/{proof.obligations} discharged"
-            + ("" if proof.ok else f"; problems: {proof.problems[:5]}"))
+    with common.lake_lock():
+        for g in getattr(mod, "GENERATORS", []):
+            try:
+                g()
+            except Exception as e:  # a translator that cannot follow the source
+                gen_problems.append(f"{g.__module__}.{g.__name__}: {type(e).__name__}: {e}")
+                traceback.print_exc()
+        # 2+3. proofs and audit
+        if not a.skip_proofs:
+            proof = common.check_proofs(prop, mod.PROP_FILES, mod.LEAN_TARGETS,
+                                        leanchecker=ctx.thorough)
+            proof.problems = gen_problems + proof.problems
+            if gen_problems:
+                proof.ok = False
+            log(f"[{prop}] proof obligations: {proof.discharged}/{proof.obligations} discharged"
+                + ("" if proof.ok else f"; problems: {proof.problems[:5]}"))
     # 4. correspondence + oracle
     channels: list[common.Channel] = []
     harness_errors: list[str] = []
